@@ -256,7 +256,7 @@ func canonMsg(m *string) string {
 	if m == nil {
 		return "-"
 	}
-	for _, marker := range []string{implText, "nil pointer dereference"} {
+	for _, marker := range []string{implText, "nil pointer dereference", "nil result"} {
 		if strings.Contains(*m, marker) {
 			return enc(marker)
 		}
@@ -372,7 +372,7 @@ func Run(cfg Config) *hx.Result {
 		byName[k.name] = k
 	}
 	runOne := func(k kindSpec, o outcome) {
-		txt := ""
+		txt := http.StatusText(http.StatusInternalServerError) // the text of the status the server settles on
 		if o.status != nil {
 			txt = http.StatusText(int(*o.status))
 		}
